@@ -20,20 +20,20 @@ def verify_module(path, repo, timeout_ms=20000, workers=16, only=None, verbose=F
     ]
     jobs = []  # (obligation, axioms, unit, kind)
     for kind, fs in units:
-        if only and fs.name not in only:
+        if only and fs.unit not in only:
             continue
         try:
             obls = eng.verify(fs)
         except OutOfSubset as e:
-            report["undecided"].append({"unit": fs.name, "reason": f"out of subset: {e}"})
+            report["undecided"].append({"unit": fs.unit, "reason": f"out of subset: {e}"})
             continue
         except RecursionError as e:  # pragma: no cover
             report["undecided"].append({"unit": fs.name, "reason": f"engine recursion: {e}"})
             continue
         axioms = list(eng.base_axioms())
         for o in obls:
-            jobs.append((o, axioms, fs.name, kind))
-        report["units"].append({"unit": fs.name, "kind": kind, "obligation_instances": len(obls)})
+            jobs.append((o, axioms, fs.unit, kind))
+        report["units"].append({"unit": fs.unit, "kind": kind, "obligation_instances": len(obls)})
         if kind == "lemma":
             # available to later units; its own obligations are discharged below like any other
             it = Interp(eng, None, Decider([]), spec_only=True)
